@@ -256,7 +256,7 @@ static inline void map_slot_erase(struct map_slot *m, struct ASAM_CMP_Decoder_En
 {
     __CPROVER_assert(k.deviceId == m->key.deviceId && k.streamId == m->key.streamId, "[[C18:map_key_is_frame_endpoint]] map key is the endpoint of the current frame");
     g_map_ops += 1;
-    m->present = 0;
+    m->present = 0; m->epoch += 1;
 }
 /* emplace / try_emplace: inserts only if the key is absent; an existing element is left untouched (value moved in: shallow copy) */
 static inline void map_slot_emplace(struct map_slot *m, struct ASAM_CMP_Decoder_Endpoint k, struct ASAM_CMP_Decoder_SegmentedPacket *v)
@@ -276,11 +276,32 @@ static inline size_t map_slot_count(struct map_slot *m, struct ASAM_CMP_Decoder_
     __CPROVER_assert(k.deviceId == m->key.deviceId && k.streamId == m->key.streamId, "[[C18:map_key_is_frame_endpoint]] map key is the endpoint of the current frame");
     return m->present ? 1 : 0;
 }
+/* find / end / iterators.  In the single-slot view an iterator is either "the element of the observed key" or end().  std::unordered_map::erase invalidates the
+ * iterators to the erased element: every erase bumps the slot's ghost epoch, and dereferencing or erasing through an iterator of an older epoch (or end()) is
+ * undefined behaviour in C++ - here a failed assertion.  (Invalidation by rehashing on insertion is not modelled.) */
+static inline struct map_it map_slot_find(struct map_slot *m, struct ASAM_CMP_Decoder_Endpoint k)
+{
+    __CPROVER_assert(k.deviceId == m->key.deviceId && k.streamId == m->key.streamId, "[[C18:map_key_is_frame_endpoint]] map key is the endpoint of the current frame");
+    struct map_it it; it.at_end = m->present ? 0 : 1; it.epoch = m->epoch; return it;      /* a lookup changes nothing: not counted as a map operation */
+}
+static inline struct map_it map_slot_end(struct map_slot *m) { (void)m; struct map_it it; it.at_end = 1; it.epoch = 0; return it; }
+static inline _Bool map_it_eq(struct map_it a, struct map_it b) { return (a.at_end != 0) == (b.at_end != 0); }
+static inline struct map_slot *map_it_deref(struct map_slot *m, struct map_it it)
+{
+    __CPROVER_assert(!it.at_end && it.epoch == m->epoch && m->present, "[[C02:map.iterator_valid_when_used]] iterator dereferenced after its element was erased (or end())");
+    return m;
+}
+static inline struct map_it map_slot_erase_it(struct map_slot *m, struct map_it it)
+{
+    __CPROVER_assert(!it.at_end && it.epoch == m->epoch && m->present, "[[C02:map.iterator_valid_when_used]] erase through an iterator whose element was already erased (or end())");
+    g_map_ops += 1; m->present = 0; m->epoch += 1;
+    return map_slot_end(m);
+}
 /* clear(): touches every endpoint's slot - never allowed while decoding one endpoint's frame */
 static inline void map_slot_clear(struct map_slot *m)
 {
     __CPROVER_assert(0, "[[C18:map_key_is_frame_endpoint C17:decode.foreign_input_touches_nothing]] clear() drops the pending messages of every endpoint");
-    g_map_ops += 1; m->present = 0;
+    g_map_ops += 1; m->present = 0; m->epoch += 1;
 }
 #endif
 
